@@ -297,12 +297,13 @@ def same_class(real: float, model: float, atol: float = 0.0) -> bool:
 
 
 def cancel_tol(*arrays) -> float:
-    """absolute tolerance for one array: 1e-12 × the magnitude of its ordinary entries (capped at 1e3, so never more
-    than 1e-9; huge entries are compared relatively)"""
+    """absolute tolerance for one array: 1e-12 × the magnitude of its ordinary entries (capped at 1e9, so never more
+    than 1e-3; rounding noise of an entry computed by cancellation is proportional to the largest terms; huge entries are
+    compared relatively)"""
     scale = 1.0
     for arr in arrays:
         for v in arr:
-            if math.isfinite(v) and abs(v) < 1e3:
+            if math.isfinite(v) and abs(v) < 1e9 and abs(v) != LARGE:
                 scale = max(scale, abs(v))
     return 1e-12 * scale
 
